@@ -15,10 +15,10 @@ import (
 )
 
 type Ctx struct {
-	P    *Program
-	Tier string
-	cg   *CallGraph // lazily built
-	eff  *effectsInfo
+	P      *Program
+	Tier   string
+	cg     *CallGraph // lazily built
+	eff    *effectsInfo
 	fsRuns []*fsRun
 }
 
